@@ -1,0 +1,96 @@
+//go:build verif
+
+package interp
+
+import "sort"
+
+// Verification hooks for method and field resolution (property C05). Compiled
+// only with -tags verif; nothing here changes the behaviour of the interpreter.
+
+// VerifTypeSet gives access to the type declarations of a compiled source.
+type VerifTypeSet struct {
+	interp *Interpreter
+	sc     *scope
+}
+
+// VerifSelection is what the static resolution code of type.go / cfg.go
+// decides for a selector `x.name` where x has the given declared type.
+type VerifSelection struct {
+	FieldPath   []int  // lookupField(name): index path to the field, nil if none
+	MethodOwner string // lookupMethod(name): name of the type that declares the method found ("" if none)
+	MethodPath  []int  // lookupMethod(name): index path to the embedded receiver
+	MethodPtr   bool   // the method found has a pointer receiver
+	MethodDepth int    // methodDepth(name)
+}
+
+// VerifCompileTypes compiles src (a complete source file: type and method
+// declarations, no execution) and returns a handle on its package scope.
+func (interp *Interpreter) VerifCompileTypes(src string) (*VerifTypeSet, error) {
+	p, err := interp.compileSrc(src, "", false)
+	if err != nil {
+		return nil, err
+	}
+	return &VerifTypeSet{interp: interp, sc: interp.scopes[p.pkgName]}, nil
+}
+
+func (ts *VerifTypeSet) typ(name string, ptr bool) *itype {
+	if ts == nil || ts.sc == nil {
+		return nil
+	}
+	sym, ok := ts.sc.sym[name]
+	if !ok || sym.kind != typeSym || sym.typ == nil {
+		return nil
+	}
+	if ptr {
+		return ptrOf(sym.typ)
+	}
+	return sym.typ
+}
+
+// Select returns what lookupField, lookupMethod and methodDepth answer for
+// (type name, selector name); ptr selects the pointer type *name.
+func (ts *VerifTypeSet) Select(typeName string, ptr bool, name string) (s VerifSelection, ok bool) {
+	t := ts.typ(typeName, ptr)
+	if t == nil {
+		return s, false
+	}
+	s.FieldPath = t.lookupField(name)
+	s.MethodDepth = t.methodDepth(name)
+	if m, path := t.lookupMethod(name); m != nil {
+		s.MethodPath = append([]int{}, path...)
+		owner := baseType(t)
+		for _, i := range path {
+			owner = baseType(owner.field[i].typ)
+		}
+		s.MethodOwner = owner.name
+		if len(m.child) > 0 && len(m.child[0].child) > 0 {
+			if rt := m.child[0].child[0].lastChild(); rt != nil && rt.kind == starExpr {
+				s.MethodPtr = true
+			}
+		}
+	}
+	return s, true
+}
+
+// Methods returns the sorted names of (*itype).methods() for the type (or its pointer type).
+func (ts *VerifTypeSet) Methods(typeName string, ptr bool) ([]string, bool) {
+	t := ts.typ(typeName, ptr)
+	if t == nil {
+		return nil, false
+	}
+	names := []string{}
+	for k := range t.methods() {
+		names = append(names, k)
+	}
+	sort.Strings(names)
+	return names, true
+}
+
+// Implements returns (*itype).implements for the type (or its pointer type) and an interface type.
+func (ts *VerifTypeSet) Implements(typeName string, ptr bool, ifaceName string) (res, ok bool) {
+	t, it := ts.typ(typeName, ptr), ts.typ(ifaceName, false)
+	if t == nil || it == nil {
+		return false, false
+	}
+	return t.implements(it), true
+}
